@@ -44,6 +44,8 @@ pub enum ParamMeaning {
     MinProp(String),
     /// keep neighbors by a hash of (parameter value, neighbor id)
     Opaque,
+    /// the data source ignores the parameter (used by the C23 "equivalent filter" relation)
+    Ignored,
 }
 
 #[derive(Clone, Debug)]
@@ -261,6 +263,7 @@ impl World {
                 ParamMeaning::MinProp(p) => {
                     holds(Op::Ge, &self.prop_val(u, p), &Val::from_fv(pv)) == Holds::Yes
                 }
+                ParamMeaning::Ignored => true,
                 ParamMeaning::Opaque => {
                     let key = format!("{}|{}|{}", d.name, Val::from_fv(pv).render(), u);
                     fnv1a(key.as_bytes()) % 3 != 0
